@@ -15,7 +15,7 @@ from vivarium.core.store import Store
 from vivarium.library.units import units
 
 LAWS = ['LawAccumulateCommutes', 'LawSetNull', 'LawNonNegative', 'LawUntouched',
-        'LawMerge', 'LawUnitsKept']
+        'LawMerge', 'LawDeepMerge', 'LawUnitsKept']
 
 CARRIERS = {
     'int': lambda n: n,
@@ -152,6 +152,64 @@ def run_merge(rep, cases):
             rep.nontrivial.add(json.dumps(c, sort_keys=True))
 
 
+def from_rows(rows):
+    d = {}
+    for path, val in rows:
+        cur = d
+        for k in path[:-1]:
+            cur = cur.setdefault(k, {})
+        cur[path[-1]] = val
+    return d
+
+
+def run_deep(rep, cases):
+    """merge on dictionaries up to three levels deep: two successive updates, a
+    sibling variable declared with the same default object, and the same batch
+    as one _multi_update; nothing but the variable itself may change"""
+    for c in cases:
+        rep.evaluations += 1
+        v, u1, u2 = from_rows(c['v']), from_rows(c['u1']), from_rows(c['u2'])
+        out1, out2 = from_rows(c['out1']), from_rows(c['out2'])
+        shared = copy.deepcopy(v)
+        st = make({'m': {'_default': shared, '_updater': 'merge'},
+                   'sib': {'_default': shared, '_updater': 'merge'}})
+        upd1, upd2 = {'m': copy.deepcopy(u1)}, {'m': copy.deepcopy(u2)}
+        try:
+            st.apply_update(upd1)
+            mid = copy.deepcopy(st.get_value()['m'])
+            st.apply_update(upd2)
+        except Exception as e:
+            viol(rep, 'deep', c, 'raised %r' % (e,))
+            continue
+        got = st.get_value()
+        if not eq(mid, out1) or not eq(got['m'], out2):
+            viol(rep, 'deep', c, 'values after the two updates are %r / %r, specification %r / %r'
+                 % (mid, got['m'], out1, out2))
+        elif not eq(got['sib'], v):
+            viol(rep, 'deep', c, 'the sibling variable (declared with the same default) changed '
+                 'to %r although only m was updated' % (got['sib'],))
+        elif not eq(upd1, {'m': u1}) or not eq(upd2, {'m': u2}):
+            viol(rep, 'deep', c, 'an update object was modified: first %r (was %r), second %r '
+                 '(was %r)' % (upd1['m'], u1, upd2['m'], u2))
+        # the same batch as one _multi_update
+        rep.evaluations += 1
+        st = make({'m': {'_default': copy.deepcopy(v), '_updater': 'merge'}})
+        batch = {'m': {'_multi_update': [copy.deepcopy(u1), copy.deepcopy(u2)]}}
+        try:
+            st.apply_update(batch)
+        except Exception as e:
+            viol(rep, 'deep', dict(c, form='_multi_update'), 'raised %r' % (e,))
+            continue
+        if not eq(st.get_value()['m'], out2):
+            viol(rep, 'deep', dict(c, form='_multi_update'), '_multi_update gives %r, specification %r'
+                 % (st.get_value()['m'], out2))
+        elif not eq(batch, {'m': {'_multi_update': [u1, u2]}}):
+            viol(rep, 'deep', dict(c, form='_multi_update'), 'the update object was modified: %r'
+                 % (batch,))
+        if any(len(r[0]) >= 3 for r in c['v']):
+            rep.nontrivial.add('deep' + json.dumps([c['v'], c['u1'], c['u2']]))
+
+
 def run_dict_value(rep, cases):
     for c in cases:
         rep.evaluations += 1
@@ -227,6 +285,8 @@ def run(rep, tier, scratch):
     run_batch(rep, t['batch'])
     run_merge(rep, t['merge'])
     run_dict_value(rep, t['dict_value'])
+    deep = t['deep'] if tier == 'thorough' else t['deep'][::9]
+    run_deep(rep, deep)
     run_units(rep, t['units'])
     rep.traces = sum(len(v) for v in t.values())
     rep.notes['cases_per_table'] = {k: len(v) for k, v in t.items()}
